@@ -120,6 +120,8 @@ func (n *normCtx) expr(e ast.Expr) string {
 		return "(" + l + " " + x.Op.String() + " " + r + ")"
 	case *ast.UnaryExpr:
 		return x.Op.String() + n.expr(x.X)
+	case *ast.StarExpr:
+		return "*" + n.expr(x.X)
 	case *ast.IndexExpr:
 		return n.expr(x.X) + "[" + n.expr(x.Index) + "]"
 	case *ast.SliceExpr:
